@@ -20,7 +20,8 @@ if r.returncode != 0:
     sh(f"git -C /repo worktree remove --force {wt}")
     sys.exit("patch does not apply: " + r.stderr)
 try:
-    env = dict(os.environ, VERIF_SEED=os.environ.get("VERIF_SEED", "0"), PYMOTO_REPO=wt)
+    env = dict(os.environ, VERIF_SEED=os.environ.get("VERIF_SEED", "0"), PYMOTO_REPO=wt,
+               VERIF_EVIDENCE_DIR=os.path.join(os.path.dirname(os.path.dirname(os.path.abspath(__file__))), "replays", "evidence-seeded"))
     meta.setdefault("detection", {})
     dm = subprocess.run(["/venv/bin/python", f"{d}/demo.py"], cwd=wt, capture_output=True, text=True,
                         env=dict(os.environ, PYTHONPATH=wt, OMP_NUM_THREADS="1"), timeout=1800)
